@@ -219,9 +219,9 @@ func c19Run(r *zsim.Run) {
 				if days > 0 {
 					boundary := now().Add(-time.Duration(days) * 24 * time.Hour)
 					if sizeRule {
-						legit = !periodStart.After(boundary.Add(time.Second))
+						legit = periodStart.Before(boundary.Add(time.Second))
 					} else {
-						legit = periodStart.Format(dateFormat) <= boundary.Format(dateFormat)
+						legit = periodStart.Format(dateFormat) < boundary.Format(dateFormat)
 					}
 				}
 				if !legit {
@@ -261,11 +261,12 @@ func c19Run(r *zsim.Run) {
 			why := ""
 			if days > 0 && !f.stamp.IsZero() {
 				boundary := now().Add(-time.Duration(days) * 24 * time.Hour)
+				// "older than the retention": strictly older; a backup exactly `days` old is kept
 				if sizeRule {
-					if !f.stamp.After(boundary) {
+					if f.stamp.Before(boundary.Truncate(time.Second)) {
 						legit = true
 					}
-				} else if f.stamp.Format(dateFormat) <= boundary.Format(dateFormat) {
+				} else if f.stamp.Format(dateFormat) < boundary.Format(dateFormat) {
 					legit = true
 				}
 				why += fmt.Sprintf(" dated %s, retention boundary %s;", f.stamp.Format(time.RFC3339), boundary.Format(time.RFC3339))
